@@ -125,11 +125,17 @@ def run(repo: Repo, ctx) -> None:
         ctx.ob('C06.R1', f'{f.name}:unit.cardinality={v}', ok,
                f'unit.cardinality = {v}', f'{cm.rel()}:{n.lineno}', sample=v)
     cfp = repo.func('edb.server.compiler.sertypes.cardinality_from_ptr')
-    txt = norm(cfp.node)
-    ok = 'required = ptr.get_required(schema)' in txt and \
-        'schema_card = ptr.get_cardinality(schema)' in txt and \
-        'qltypes.Cardinality.from_schema_value(required, schema_card)' \
-        in txt and 'return enums.cardinality_from_ir_value(ir_card)' in txt
+    from ..model import inline_locals
+    rets = [r for r in ast.walk(cfp.node) if isinstance(r, ast.Return)
+            and r.value is not None]
+    ps = cfp.params()
+    if len(rets) != 1 or len(ps) < 2:
+        raise AnalysisError('C06.R1: cardinality_from_ptr shape changed')
+    flat = inline_locals(cfp.node, rets[0].value)
+    want = (f'enums.cardinality_from_ir_value(qltypes.Cardinality.'
+            f'from_schema_value({ps[0]}.get_required({ps[1]}), '
+            f'{ps[0]}.get_cardinality({ps[1]})))')
+    ok = flat == want
     ctx.ob('C06.R1', 'sertypes.cardinality_from_ptr', ok,
            'shape-element cardinality is not derived from the pointer\'s '
            '(required, cardinality) pair', cfp.loc,
